@@ -95,6 +95,15 @@ func exercise(t *tree.Tree) error {
 		_, _ = phyloxml.WritePhyloXML(ch)
 	}
 	_ = t.Clone()
+	// a delivered tree is used more than once: indexing it again (also after an index that
+	// failed, e.g. on duplicated tip names) and unrooting it must not crash either
+	_ = t.ReinitIndexes()
+	_ = t.UpdateTipIndex()
+	if len(t.Tips()) > 2 {
+		t.UnRoot()
+		_ = t.ReinitIndexes()
+	}
+	_ = t.Newick()
 	return nil
 }
 
@@ -284,6 +293,7 @@ var hostile = []string{
 	"<phyloxml>", "<phyloxml></phyloxml>", "<phyloxml><phylogeny></phylogeny></phyloxml>", "<phyloxml><phylogeny><clade></clade></phylogeny></phyloxml>",
 	"<phyloxml><phylogeny><clade><clade><name>a</name></clade></clade></phylogeny></phyloxml>", "<phyloxml><phylogeny><clade><name>a</name></clade></phylogeny></phyloxml>",
 	"<phyloxml><phylogeny><clade><clade/><clade/></clade></phylogeny></phyloxml>", "<phyloxml><phylogeny rooted=\"x\"><clade/></phylogeny></phyloxml>",
+	"(a,b)0.9/0.01;", "(a,b,(c,d)0.9/0.01)0.95/0.001;", "(a,b)1/2:3;", "(a,b)0.5:1[c];", "((a,b)1/2/3,c)4/5;", "(a,b)/;", "(a,b)1/;", "(a,b)/1;",
 	"{}", "{\"version\":\"v2\"}", "{\"version\":\"v2\",\"tree\":{}}", "{\"version\":\"v2\",\"tree\":{\"children\":[{}]}}", "{\"version\":\"v2\",\"tree\":{\"name\":\"a\"}}",
 	"{\"version\":\"v2\",\"tree\":{\"children\":[{\"name\":\"a\"}]}}", "{\"version\":\"v2\",\"tree\":{\"children\":null}}", "null", "[]", "{\"version\":\"v2\",\"tree\":null}",
 }
@@ -295,6 +305,14 @@ func nested(k int) string {
 func genModels(t *rapid.T, sameTaxa bool) []*ref.Node {
 	o := gen.Opts{MinTips: 2, MaxTips: 8, Rooted: -1, MaxDeg: 4, Lens: gen.AnyPresence, LenVals: gen.Arbitrary, Sups: gen.AnyPresence, InnerNames: gen.AnyPresence, Comments: rapid.Bool().Draw(t, "comments")}
 	base := gen.Tree(t, o)
+	// the root may carry what only inner nodes usually carry: a numeric label, a support/p-value
+	// label, a length, a comment after its length
+	if rapid.IntRange(0, 5).Draw(t, "rootdeco") == 2 {
+		base.Name = rapid.SampledFrom([]string{"0.95", "0.95/0.001", "1e-3", "root", "1/2/3", "/"}).Draw(t, "rootname")
+		if rapid.Bool().Draw(t, "rootlen") {
+			base.Len = ref.F(0)
+		}
+	}
 	k := rapid.IntRange(1, 3).Draw(t, "ntrees")
 	if rapid.IntRange(0, 11).Draw(t, "many") == 5 {
 		k = rapid.IntRange(9, 30).Draw(t, "ntreesmany") // more trees than the readers' channel buffers hold
@@ -395,7 +413,7 @@ func anchors() []Case {
 func TestC02Readers(t *testing.T) {
 	h.Run(t, h.Spec[Case]{
 		Property: "C02", Name: "readers", Quick: 40000, Thorough: 1600000, Timeout: 15 * time.Second,
-		Rule: "documents of the five formats written by independent writers from generated trees (1-3 trees, one document in twelve 9-30 trees; multi-Newick layouts, Nexus with TAXA/DATA/TRANSLATE/unknown blocks and comments, PhyloXML, Nextstrain v2), hostile constants, deep nesting, random bytes, cross-format input; 0-4 byte-level mutations (truncate, delete, duplicate, insert dictionary token or random bytes, flip, splice with a second document, replace, swap); every document goes through the format's parser, ReadTreeReader and ReadMultiTrees (drained); every delivered tree is traversed, indexed and written (Newick, Nexus +-translate, PhyloXML, Clone). 3% of the documents also go through the command line (`reformat newick --input-format`, `stats rooted --format`, `unroot -o`): the process must end without a Go panic trace. Oracle: everything returns within 15 s, no panic on any goroutine, no record without tree and error. Non-trivial = a mutated valid document or a hostile constant",
+		Rule: "documents of the five formats written by independent writers from generated trees (1-3 trees, one document in twelve 9-30 trees; multi-Newick layouts, Nexus with TAXA/DATA/TRANSLATE/unknown blocks and comments, PhyloXML, Nextstrain v2), hostile constants, deep nesting, random bytes, cross-format input; 0-4 byte-level mutations (truncate, delete, duplicate, insert dictionary token or random bytes, flip, splice with a second document, replace, swap); every document goes through the format's parser, ReadTreeReader and ReadMultiTrees (drained); every delivered tree is traversed, indexed and written (Newick, Nexus +-translate, PhyloXML, Clone), then indexed again, unrooted and written again; one generated tree in six carries a numeric, support/p-value or plain label and a length on its root. 3% of the documents also go through the command line (`reformat newick --input-format`, `stats rooted --format`, `unroot -o`): the process must end without a Go panic trace. Oracle: everything returns within 15 s, no panic on any goroutine, no record without tree and error. Non-trivial = a mutated valid document or a hostile constant",
 		Gen:   genCase,
 		Check: check,
 		Anchors: anchors(),
